@@ -66,6 +66,30 @@ struct System {
 		return c;
 	}
 
+	// the shells / ECPs of the system at geometry g built DIRECTLY from the definitions (GaussianShell / ECP constructors, addPrim,
+	// addPrimitive, sort) - independent of what ECPIntegrator::set_gaussian_basis / set_ecp_basis parse out of the flat arrays
+	std::vector<libecpint::GaussianShell> ref_shells(int g) const {
+		std::vector<libecpint::GaussianShell> out; const auto &G = geoms.at(g);
+		for (auto &s : shells) {
+			std::array<double, 3> c = {G[3*s.atom], G[3*s.atom+1], G[3*s.atom+2]};
+			libecpint::GaussianShell sh(c, s.l);
+			for (size_t i = 0; i < s.e.size(); i++) sh.addPrim(s.e[i], s.c[i]);
+			out.push_back(sh);
+		}
+		return out;
+	}
+	std::vector<libecpint::ECP> ref_ecps(int g) const {
+		std::vector<libecpint::ECP> out; const auto &G = geoms.at(g);
+		for (auto &u : ecps) {
+			double c[3] = {G[3*u.atom], G[3*u.atom+1], G[3*u.atom+2]};
+			libecpint::ECP U(c);
+			for (auto &p : u.prims) U.addPrimitive(p.n, p.l, p.a, p.d);
+			U.sort();
+			out.push_back(U);
+		}
+		return out;
+	}
+
 	// a freshly constructed integrator with shells at geometry gs and ECPs at geometry ge
 	void make(libecpint::ECPIntegrator &f, int gs, int ge, int deriv) const {
 		std::vector<double> sc = shell_coords(gs), ec = ecp_coords(ge), ex, co, ea, ed;
